@@ -341,7 +341,7 @@ FAULTS = ["undefined-head", "undefined-type", "undefined-member", "dup-field", "
           "two-scopes-alias-field", "abbr-outside-nested", "abbr-outside-member", "abbr-outside-static",
           "member-of-array", "member-of-scalar", "member-of-virtual", "field-attr-other-field",
           "outer-field-from-nested", "param-member", "module-as-value", "module-attr-undefined",
-          "inline-type-then-bare-name"]
+          "inline-type-then-bare-name", "two-scopes-prelude-nested", "inline-type-prelude-name"]
 
 
 class Gen:
@@ -872,6 +872,42 @@ class Gen:
             e.index = len(self.all_types)
             self.all_types.append(e)
             self.main.types.append(e)
+        elif f == "two-scopes-prelude-nested":
+            # a type declared INSIDE a struct and named like a prelude type, spelled bare from that struct: visible
+            # from the struct and from the prelude, whatever the module level holds
+            t = self.fixture()
+            nm = r.choice(["Int", "UInt", "Flag", "Bcd", "Float"])
+            e = Ty("enum", nm, t)
+            e.decl_parent = t
+            e.values = [("VA", 0, None)]
+            e.index = len(self.all_types)
+            self.all_types.append(e)
+            t.declared.append(e)
+            self.add_typed(t, [nm], front=r.random() < 0.3, typ=e)
+        elif f == "inline-type-prelude-name":
+            # an inline enum on a field called flag / int / bcd / float / u_int: the hoisted type is called like a
+            # prelude type; the field's own (is_local_name) reference is the inner type, no ambiguity
+            t = self.fixture()
+            taken = self.scope_names(t)
+            free = [n for n in ["flag", "int", "bcd", "float", "u_int"] if n not in taken
+                    and camel(n) not in [u.name for u in t.subtypes()] + [u.name for u in self.main.types]]
+            if not free:
+                return
+            n = r.choice(free)
+            fd = Fd(n, t)
+            fd.kind = "inline"
+            e = Ty("enum", camel(n), t, inline=True)
+            e.decl_parent = t
+            e.values = [("VA", 0, None)]
+            e.index = len(self.all_types)
+            self.all_types.append(e)
+            t.hoisted.append(e)
+            fd.typ = e
+            fd.tref = self.new_ref("type", [e.name], t, local=True)
+            if r.random() < 0.5:
+                t.fields.insert(0, fd)
+            else:
+                t.fields.append(fd)
         elif f == "two-scopes-alias-field":
             # the import alias is called xa; a field xa is referenced inside its struct
             c = [u for u in ts if "xa" in [x.name for x in u.fields]]
